@@ -3,6 +3,7 @@ package main
 import (
 	"fmt"
 	"go/token"
+	"go/types"
 	"math"
 
 	"golang.org/x/tools/go/ssa"
@@ -170,4 +171,206 @@ func ruleRawCopy(c *Ctx, r *Report, prefix string) {
 	if n == 0 {
 		r.Undecided(rule, "call-sites", c.Pos(raw.Pos()), "no call of writeUncompressedChunk found")
 	}
+}
+
+// ---- SIB-REOPEN-STATE: Reopen re-arms every piece of per-chunk state ----
+// An object that is reused through Reopen must come out of it like a new one: every field that any
+// other method changes (or whose address it hands out) is stored by Reopen before it returns
+// successfully. A field that only the constructor sets (the dictionary a reader works on) is kept.
+func ruleReopenState(c *Ctx, r *Report, prefix string) {
+	rule := prefix + "SIB-REOPEN-STATE"
+	for _, it := range []struct{ typ, ctor string }{
+		// (decoder.Reopen keeps the coder state across chunks by design - the chunk type decides about
+		// resets, SEQ-STARTCHUNK - so it is not an instance of this rule)
+		{"uncompressedReader", "newUncompressedReader"},
+	} {
+		reopen := c.Func("lzma", it.typ+".Reopen")
+		tt := c.Type("lzma", it.typ)
+		if reopen == nil || tt == nil || reopen.Name() != "Reopen" {
+			continue
+		}
+		st, ok := tt.Underlying().(*types.Struct)
+		if !ok {
+			continue
+		}
+		// top-level field index of an address rooted at a *T value
+		var topField func(v ssa.Value) (int, bool)
+		topField = func(v ssa.Value) (int, bool) {
+			fa, ok := v.(*ssa.FieldAddr)
+			if !ok {
+				return 0, false
+			}
+			if pt, isP := fa.X.Type().Underlying().(*types.Pointer); isP && types.Identical(pt.Elem(), tt) {
+				return fa.Field, true
+			}
+			return topField(fa.X)
+		}
+		mutated := map[int]string{}
+		ctorFn := c.Func("lzma", it.ctor) // the caller that took it over, when it was folded away
+		for _, fn := range c.modFuncs {
+			if fn.Blocks == nil || fn == reopen || fn == ctorFn {
+				continue
+			}
+			for _, b := range fn.Blocks {
+				for _, ins := range b.Instrs {
+					switch x := ins.(type) {
+					case *ssa.Store:
+						if i, ok := topField(x.Addr); ok {
+							mutated[i] = FnName(fn)
+						}
+					case *ssa.Call:
+						for _, a := range x.Call.Args {
+							if i, ok := topField(a); ok {
+								mutated[i] = FnName(fn) + " (address passed on)"
+							}
+						}
+					case *ssa.MakeInterface:
+						if i, ok := topField(x.X); ok {
+							mutated[i] = FnName(fn) + " (address passed on)"
+						}
+					}
+				}
+			}
+		}
+		// stores of Reopen that dominate every successful return
+		var okRets []*ssa.BasicBlock
+		for _, b := range reopen.Blocks {
+			if len(b.Instrs) == 0 {
+				continue
+			}
+			if ret, isR := b.Instrs[len(b.Instrs)-1].(*ssa.Return); isR {
+				if n := len(ret.Results); n > 0 && isErrType(ret.Results[n-1].Type()) && !isNilConst(ret.Results[n-1]) {
+					continue
+				}
+				okRets = append(okRets, b)
+			}
+		}
+		whole := map[int]bool{}
+		sub := map[int]map[int]bool{}
+		for _, b := range c.GB(reopen) {
+			domAll := b.Parent() == reopen
+			if domAll {
+				for _, rb := range okRets {
+					if !b.Dominates(rb) {
+						domAll = false
+					}
+				}
+			}
+			if !domAll {
+				continue
+			}
+			for _, ins := range b.Instrs {
+				stx, isSt := ins.(*ssa.Store)
+				if !isSt {
+					continue
+				}
+				fa, isFA := stx.Addr.(*ssa.FieldAddr)
+				if !isFA {
+					continue
+				}
+				if pt, isP := fa.X.Type().Underlying().(*types.Pointer); isP && types.Identical(pt.Elem(), tt) {
+					whole[fa.Field] = true
+					continue
+				}
+				if i, ok := topField(fa.X); ok {
+					if sub[i] == nil {
+						sub[i] = map[int]bool{}
+					}
+					sub[i][fa.Field] = true
+				}
+			}
+		}
+		for i := 0; i < st.NumFields(); i++ {
+			who, isMut := mutated[i]
+			if !isMut {
+				continue
+			}
+			reset := whole[i]
+			if !reset {
+				if fst, isS := st.Field(i).Type().Underlying().(*types.Struct); isS && len(sub[i]) == fst.NumFields() {
+					reset = true
+				}
+			}
+			key := it.typ + ".Reopen:" + st.Field(i).Name()
+			r.Check(reset, rule, key, c.Pos(reopen.Pos()), "re-armed by Reopen (changed by "+who+")",
+				fmt.Sprintf("%s.%s is changed by %s but not set by Reopen on its successful paths: the reused object starts the next chunk with stale state", it.typ, st.Field(i).Name(), who))
+		}
+	}
+}
+
+// ---- CE-RING-ACCOUNT / TM-ENCAVAIL: how much the encoder dictionary may accept ----
+// buffer.Available() + buffer.Buffered() = buffer.Cap() = len(data) - 1 for every (front, rear) of a
+// ring (finite-domain evaluation over small rings; one slot stays free to tell full from empty).
+// encoderDict.Available() = that free space minus the history that has to stay resident (DictLen):
+// one byte more and a refill overwrites the oldest byte of the window - a match at distance DictCap
+// then references a byte the decoder still has and the encoder no longer.
+func ruleEncAvail(c *Ctx, r *Report, prefix string) {
+	bt := c.Type("lzma", "buffer")
+	fAvail, fBuf, fCap := c.Func("lzma", "buffer.Available"), c.Func("lzma", "buffer.Buffered"), c.Func("lzma", "buffer.Cap")
+	if bt != nil && fAvail != nil && fBuf != nil && fCap != nil {
+		rule := prefix + "CE-RING-ACCOUNT"
+		bad, n := "", 0
+		iData, iFront, iRear := fieldIndex(bt, "data"), fieldIndex(bt, "front"), fieldIndex(bt, "rear")
+		st, _ := bt.Underlying().(*types.Struct)
+		for _, L := range []int{2, 3, 5, 8} {
+			for front := 0; front < L && bad == ""; front++ {
+				for rear := 0; rear < L && bad == ""; rear++ {
+					get := func(fn *ssa.Function) (int64, bool) {
+						in := NewInterp(c)
+						cl := in.newCellOf(bt)
+						cl.field(iData).v = aBytes(in, make([]byte, L), st.Field(iData).Type())
+						cl.field(iFront).v = aInt(int64(front), types.Typ[types.Int])
+						cl.field(iRear).v = aInt(int64(rear), types.Typ[types.Int])
+						res := in.Call(fn, []aval{{k: kPtr, cell: cl}})
+						if !res.OK || res.Panicked || len(res.Rets) != 1 {
+							return 0, false
+						}
+						return res.Rets[0].Int()
+					}
+					a, ok1 := get(fAvail)
+					b, ok2 := get(fBuf)
+					cp, ok3 := get(fCap)
+					n++
+					if !ok1 || !ok2 || !ok3 {
+						bad = fmt.Sprintf("cannot evaluate for len %d front %d rear %d", L, front, rear)
+					} else if a+b != cp || cp != int64(L-1) || a < 0 || b < 0 {
+						bad = fmt.Sprintf("len(data)=%d front=%d rear=%d: Available()=%d Buffered()=%d Cap()=%d; required Available+Buffered = Cap = len-1", L, front, rear, a, b, cp)
+					}
+				}
+			}
+		}
+		if iData < 0 || iFront < 0 || iRear < 0 {
+			bad = "buffer has no data/front/rear fields"
+		}
+		r.Check(bad == "", rule, "buffer", c.Pos(fAvail.Pos()), fmt.Sprintf("Available + Buffered = Cap = len(data) - 1 on %d ring states", n), bad)
+	}
+	fn := c.Func("lzma", "encoderDict.Available")
+	dl := c.Func("lzma", "encoderDict.DictLen")
+	if fn == nil || dl == nil || fn.Name() != "Available" {
+		return
+	}
+	rule := prefix + "TM-ENCAVAIL"
+	var rets []string
+	for _, b := range fn.Blocks {
+		if len(b.Instrs) == 0 {
+			continue
+		}
+		if ret, ok := b.Instrs[len(b.Instrs)-1].(*ssa.Return); ok && len(ret.Results) == 1 {
+			rets = append(rets, staticTerm(c, ret.Results[0], fAvail, fBuf, fCap, dl))
+		}
+	}
+	canon := func(t string) string {
+		// express the ring's free space through len(data) and Buffered (CE-RING-ACCOUNT)
+		t = replaceToken(t, "(call buffer.Available &d.buf)", "(+ (len @d.buf.data) -1 (neg (call buffer.Buffered &d.buf)))")
+		t = replaceToken(t, "(call buffer.Cap &d.buf)", "(+ (len @d.buf.data) -1)")
+		return normTerm(t)
+	}
+	want := normTerm("(+ (len @d.buf.data) -1 (neg (call buffer.Buffered &d.buf)) (neg (call encoderDict.DictLen &d)))")
+	ok := len(rets) == 1 && canon(rets[0]) == want
+	got := ""
+	if len(rets) > 0 {
+		got = canon(rets[0])
+	}
+	r.Check(ok, rule, FnName(fn), c.Pos(fn.Pos()), "encoderDict.Available = free ring space (len(data) - 1 - Buffered) - DictLen",
+		"encoderDict.Available is "+got+", not the free space of the ring minus the resident history ("+want+"): a refill may overwrite the oldest byte of the dictionary window (or refuses bytes it could take)")
 }
